@@ -39,6 +39,8 @@ fn main() {
             }
             let tier = if args[2] == "thorough" { Tier::Thorough } else { Tier::Quick };
             let ctx = Ctx { prop: "C17".into(), tier, seed, threads, scale };
+            encverif::guard::install_fault_handler("C17");
+            encverif::guard::start_watchdog(90, 40usize << 30);
             let code = if detail { encverif::checks::c17::digest_main(&ctx, &args[5], Some((args[3].clone(), args[4].clone()))) } else { encverif::checks::c17::digest_main(&ctx, &args[3], None) };
             std::process::exit(code);
         }
